@@ -4,6 +4,7 @@ import (
 	"fmt"
 	"go/token"
 	"go/types"
+	"sort"
 	"strings"
 
 	"golang.org/x/tools/go/ssa"
@@ -28,6 +29,8 @@ var effectFreePrefixes = []string{
 	"(error).Error",
 	"google.golang.org/grpc/status.", "google.golang.org/grpc/codes.",
 	"(*time.Ticker).", "time.NewTicker", "time.After", "time.Sleep",
+	"(*container/list.List).", "container/list.New", "(*container/list.Element).",
+	"dynamic:context.CancelFunc",
 }
 
 const tagPlainErr = 1000001
@@ -116,6 +119,7 @@ func (g *Gen) contractOfCall(c *ssa.CallCommon) (*Contract, string) {
 }
 
 func (g *Gen) execCall(v ssa.Value, c *ssa.CallCommon, in ssa.Instruction, st State, reach string) {
+	defer g.applyVolatile(st)
 	if b, ok := c.Value.(*ssa.Builtin); ok {
 		g.execBuiltin(v, b, c, in, st, reach)
 		return
@@ -163,6 +167,26 @@ func (g *Gen) execCall(v ssa.Value, c *ssa.CallCommon, in ssa.Instruction, st St
 	}
 	if c.IsInvoke() && (c.Method.Name() == "Error" || c.Method.Name() == "String") {
 		return
+	}
+	// a function of the loaded program without a contract: havoc exactly what its body (and
+	// its callees) may write, computed syntactically on the SSA
+	var callee *ssa.Function
+	switch f := c.Value.(type) {
+	case *ssa.Function:
+		callee = f
+	case *ssa.MakeClosure:
+		callee = f.Fn.(*ssa.Function)
+	}
+	if callee != nil && (callee.Blocks != nil || externalWithClosures(c)) {
+		mods := g.callMods(c, map[*ssa.Function]bool{})
+		if callee.Blocks == nil {
+			g.assumed["external function affects tracked state only through the closures passed to it: "+trimName(name)] = true
+		}
+		if !mods["*"] {
+			g.note("call without contract: %s at %s: results havocked, inferred write set havocked", trimName(name), g.where(in.Pos()))
+			g.havocNames(mods, st)
+			return
+		}
 	}
 	g.note("call without contract: %s at %s: results havocked, all heaps havocked", trimName(name), g.where(in.Pos()))
 	g.havocAllHeaps(st)
@@ -215,6 +239,34 @@ func (g *Gen) resolveDesignator(d string, pkg *types.Package) []string {
 	switch {
 	case d == "*":
 		return []string{"*"}
+	case strings.HasPrefix(d, "inferred:"):
+		// the syntactic write set of a function of the loaded program (over-approximation
+		// computed on its SSA, transitively): a frame that is sound by construction
+		name := strings.TrimPrefix(d, "inferred:")
+		key := name
+		if pkg != nil && !strings.Contains(name, "/") {
+			key = pkg.Path() + "." + name
+		}
+		fn := g.prog.funcs[key]
+		if fn == nil {
+			g.errorf("modifies %s: function not found", d)
+			return nil
+		}
+		var out []string
+		for k := range g.inferMods(fn, map[*ssa.Function]bool{}) {
+			if strings.HasPrefix(k, "*struct:") {
+				pre := "F." + strings.TrimPrefix(k, "*struct:") + "."
+				for hn := range g.stSorts {
+					if strings.HasPrefix(hn, pre) {
+						out = append(out, hn)
+					}
+				}
+				continue
+			}
+			out = append(out, k)
+		}
+		sort.Strings(out)
+		return out
 	case d == "bytes":
 		return []string{"E.uint8"}
 	case strings.HasPrefix(d, "ghost."):
@@ -302,62 +354,14 @@ func (g *Gen) applyContract(v ssa.Value, ct *Contract, key string, c *ssa.CallCo
 	if ct.Assumed {
 		g.assumed["assumed contract: "+trimName(key)] = true
 	}
-	vars := map[string]T{}
-	var args []T
-	if c.IsInvoke() {
-		recv := g.val(c.Value)
-		vars["self"] = recv
-		args = append(args, recv)
-	}
-	for _, a := range c.Args {
-		args = append(args, g.val(a))
-	}
-	// parameter names: from the contract, else from the callee signature / SSA function
+	vars := g.callVars(ct, c, st)
 	sig := c.Signature()
-	off := 0
-	if c.IsInvoke() {
-		off = 1
-	} else if f, ok := c.Value.(*ssa.Function); ok && f.Signature.Recv() != nil {
-		off = 1
-		if len(args) > 0 {
-			vars["self"] = args[0]
-			if len(f.Params) > 0 {
-				vars[f.Params[0].Name()] = args[0]
-			}
-		}
-	}
-	if mc, ok := c.Value.(*ssa.MakeClosure); ok {
-		_ = mc
-	}
-	for i := 0; i < sig.Params().Len(); i++ {
-		if off+i >= len(args) {
-			break
-		}
-		if n := sig.Params().At(i).Name(); n != "" && n != "_" {
-			vars[n] = args[off+i]
-		}
-		if i < len(ct.Params) {
-			vars[ct.Params[i]] = args[off+i]
-		}
-		vars[fmt.Sprintf("arg%d", i)] = args[off+i]
-	}
 	cpkg := g.prog.typesPkg(ct.Pkg)
 	if cpkg == nil {
 		cpkg = g.pkg
 	}
 	pre := st.clone()
-	g.bindLets(ct, vars, pre, pre)
-	for i, cl := range ct.Requires {
-		env := g.envAt(pre, pre, cpkg, vars)
-		env.inGoal = true
-		t := env.compileBool(cl.Expr)
-		g.reportSpecErrors(env, cl)
-		label := cl.Label
-		if label == "" {
-			label = fmt.Sprint(i)
-		}
-		g.newObligation("pre", shortKey(key)+"."+label, fmt.Sprintf("precondition of %s: %s  [call at %s]", trimName(key), cl.Text, g.where(in.Pos())), cl.Where, app("=>", reach, t.S))
-	}
+	g.checkCallPre(ct, key, c, in, st, reach)
 	// havoc
 	if !ct.Pure {
 		a := g.stGet(st, "alloc", SMath)
@@ -373,7 +377,11 @@ func (g *Gen) applyContract(v ssa.Value, ct *Contract, key string, c *ssa.CallCo
 		if so == nil {
 			so = g.guessStateSort(n)
 			if so == nil {
-				g.errorf("modifies %s of %s: unknown state component", n, key)
+				if strings.HasPrefix(n, "ghost.") {
+					g.errorf("modifies %s of %s: unknown state component", n, key)
+				} else if g.curMods != nil {
+					g.curMods[n] = nil // never read by this function so far; remembered for loops
+				}
 				continue
 			}
 		}
@@ -621,12 +629,161 @@ func isNilSafeGetter(name string) bool {
 }
 
 func (g *Gen) goEffects(v *ssa.Go, st State, reach string) {
-	// a spawned function under contract with a "requires" is checked at the spawn point
-	ct, key := g.contractOfCall(&v.Call)
-	if ct == nil {
+	// a spawned function under contract: its preconditions are checked at the spawn point
+	// (its effects are not applied: it runs concurrently and is verified on its own)
+	if ct, key := g.contractOfCall(&v.Call); ct != nil {
+		g.checkCallPre(ct, key, &v.Call, v, st, reach)
+	}
+	// what the spawned function may write is from now on changed under our feet
+	var fn *ssa.Function
+	switch f := v.Call.Value.(type) {
+	case *ssa.Function:
+		fn = f
+	case *ssa.MakeClosure:
+		fn = f.Fn.(*ssa.Function)
+	}
+	if g.volatile == nil {
+		g.volatile = map[string]bool{}
+	}
+	if fn == nil || fn.Blocks == nil {
+		g.volatile["*"] = true
+	} else {
+		for k := range g.inferMods(fn, map[*ssa.Function]bool{}) {
+			g.volatile[k] = true
+		}
+		// captured variables assigned by the closure
+		if mc, ok := v.Call.Value.(*ssa.MakeClosure); ok {
+			for i, fv := range fn.FreeVars {
+				written := false
+				for _, r := range *fv.Referrers() {
+					switch u := r.(type) {
+					case *ssa.Store:
+						if u.Addr == ssa.Value(fv) {
+							written = true
+						}
+					case *ssa.Call:
+						if strings.HasPrefix(calleeName(&u.Call), "sync/atomic.") {
+							written = true
+						}
+					}
+				}
+				if a, ok := mc.Bindings[i].(*ssa.Alloc); ok && written && g.isCellAlloc(a) {
+					g.volatile[g.cellName(a)] = true
+				}
+			}
+		}
+	}
+	g.applyVolatile(st)
+}
+
+// applyVolatile havocs the state components that concurrently running goroutines spawned by
+// this function may write. Called at the spawn, at every later block entry and after calls.
+func (g *Gen) applyVolatile(st State) {
+	if len(g.volatile) == 0 {
 		return
 	}
-	_ = key
+	if g.volatile["*"] {
+		g.havocAllHeaps(st)
+	}
+	for n := range g.volatile {
+		if n == "*" || n == "" {
+			continue
+		}
+		if strings.HasPrefix(n, "*struct:") {
+			g.havocNames(map[string]bool{n: true}, st)
+			continue
+		}
+		if so := g.stSorts[n]; so != nil {
+			g.stHavoc(st, n, so)
+			g.recordWrite(n, nil)
+		} else if g.curMods != nil {
+			g.curMods[n] = nil
+		}
+	}
+}
+
+// closureVars binds the captured variables of a closure call to their current values.
+func (g *Gen) closureVars(c *ssa.CallCommon, st State, vars map[string]T) {
+	mc, ok := c.Value.(*ssa.MakeClosure)
+	if !ok {
+		return
+	}
+	fn := mc.Fn.(*ssa.Function)
+	for i, fv := range fn.FreeVars {
+		b := mc.Bindings[i]
+		if a, ok := b.(*ssa.Alloc); ok && g.isCellAlloc(a) {
+			lv := g.resolveAddr(a, st)
+			vars[fv.Name()] = T{S: g.lvLoad(lv, st), So: lv.so, GoT: lv.goT}
+		} else if _, ok := b.Type().Underlying().(*types.Pointer); ok {
+			lv := g.resolveAddr(b, st)
+			if lv.kind != lvBad {
+				vars[fv.Name()] = T{S: g.lvLoad(lv, st), So: lv.so, GoT: lv.goT}
+			}
+		} else {
+			vars[fv.Name()] = g.val(b)
+		}
+	}
+}
+
+func (g *Gen) callVars(ct *Contract, c *ssa.CallCommon, st State) map[string]T {
+	vars := map[string]T{}
+	var args []T
+	if c.IsInvoke() {
+		recv := g.val(c.Value)
+		vars["self"] = recv
+		args = append(args, recv)
+	}
+	for _, a := range c.Args {
+		args = append(args, g.val(a))
+	}
+	sig := c.Signature()
+	off := 0
+	if c.IsInvoke() {
+		off = 1
+	} else if f, ok := c.Value.(*ssa.Function); ok && f.Signature.Recv() != nil {
+		off = 1
+		if len(args) > 0 {
+			vars["self"] = args[0]
+			if len(f.Params) > 0 {
+				vars[f.Params[0].Name()] = args[0]
+			}
+		}
+	}
+	g.closureVars(c, st, vars)
+	for i := 0; i < sig.Params().Len(); i++ {
+		if off+i >= len(args) {
+			break
+		}
+		if n := sig.Params().At(i).Name(); n != "" && n != "_" {
+			vars[n] = args[off+i]
+		}
+		if i < len(ct.Params) {
+			vars[ct.Params[i]] = args[off+i]
+		}
+		vars[fmt.Sprintf("arg%d", i)] = args[off+i]
+	}
+	return vars
+}
+
+func (g *Gen) checkCallPre(ct *Contract, key string, c *ssa.CallCommon, in ssa.Instruction, st State, reach string) {
+	vars := g.callVars(ct, c, st)
+	cpkg := g.prog.typesPkg(ct.Pkg)
+	if cpkg == nil {
+		cpkg = g.pkg
+	}
+	pre := st.clone()
+	g.bindLets(ct, vars, pre, pre)
+	for i, cl := range ct.Requires {
+		env := g.envAt(pre, pre, cpkg, vars)
+		env.inGoal = true
+		t := env.compileBool(cl.Expr)
+		g.reportSpecErrors(env, cl)
+		label := cl.Label
+		if label == "" {
+			label = fmt.Sprint(i)
+		}
+		g.newObligation("pre", shortKey(key)+"."+label, fmt.Sprintf("precondition of %s: %s  [call at %s]", trimName(key), cl.Text, g.where(in.Pos())), cl.Where, app("=>", reach, t.S))
+	}
 }
 
 // ---------- channels and maps (abstract) ----------
@@ -790,4 +947,36 @@ func (g *Gen) pbGetter(v ssa.Value, c *ssa.CallCommon, st State) bool {
 		return true
 	}
 	return false
+}
+
+// havocNames havocs the given state components ("*struct:T" expands to all field heaps of T).
+func (g *Gen) havocNames(mods map[string]bool, st State) {
+	a := g.stGet(st, "alloc", SMath)
+	na := g.stHavoc(st, "alloc", SMath)
+	g.assume(app(">=", na, a))
+	for n := range mods {
+		if strings.HasPrefix(n, "*struct:") {
+			pre := "F." + strings.TrimPrefix(n, "*struct:") + "."
+			for hn, so := range g.stSorts {
+				if strings.HasPrefix(hn, pre) {
+					g.stHavoc(st, hn, so)
+					g.recordWrite(hn, nil)
+				}
+			}
+			continue
+		}
+		so := g.stSorts[n]
+		if so == nil {
+			so = g.guessStateSort(n)
+		}
+		if so == nil {
+			// a heap this function has not touched so far; remember it for loop havoc sets
+			if g.curMods != nil {
+				g.curMods[n] = nil
+			}
+			continue
+		}
+		g.stHavoc(st, n, so)
+		g.recordWrite(n, nil)
+	}
 }
